@@ -987,3 +987,38 @@ Proof. unfold agent_valid. intros H. apply andb_true_iff in H. destruct H as [H 
 
 Lemma default_agent_valid : utf8_valid DEFAULT_AGENT = true /\ agent_valid DEFAULT_AGENT = true.
 Proof. split; reflexivity. Qed.
+
+(* ------------------------------------------------------------------ the Refs codec is not canonical *)
+
+Definition refs_entry (name oid : list N) : list N := enc_u8 (len name) ++ name ++ enc_oid oid.
+Definition ref_a : list N := [114; 101; 102; 115; 47; 104; 101; 97; 100; 115; 47; 97].   (* refs/heads/a *)
+Definition ref_b : list N := [114; 101; 102; 115; 47; 104; 101; 97; 100; 115; 47; 98].   (* refs/heads/b *)
+Definition refs_unsorted : list N := enc_u16 2 ++ refs_entry ref_b (rpt 20 2) ++ refs_entry ref_a (rpt 20 1).
+Definition refs_duplicate : list N := enc_u16 2 ++ refs_entry ref_a (rpt 20 1) ++ refs_entry ref_a (rpt 20 2).
+
+Lemma bytes_okb_true l : bytes_okb l = true -> bytes_ok l.
+Proof.
+  induction l as [|b l IH]; intros H; [constructor|].
+  cbn [bytes_okb forallb] in H. apply andb_true_iff in H. destruct H as [Hb Hl].
+  constructor; [now apply N.ltb_lt|now apply IH].
+Qed.
+
+Lemma refs_not_canonical (utf8_ok ref_ok : list N -> bool) :
+  utf8_ok ref_a = true -> utf8_ok ref_b = true -> ref_ok ref_a = true -> ref_ok ref_b = true ->
+  bytes_ok refs_unsorted /\ bytes_ok refs_duplicate /\
+  decode_refs utf8_ok ref_ok refs_unsorted = RefsOk [(ref_a, rpt 20 1); (ref_b, rpt 20 2)] /\
+  enc_refs [(ref_a, rpt 20 1); (ref_b, rpt 20 2)] <> Some refs_unsorted /\
+  decode_refs utf8_ok ref_ok refs_duplicate = RefsOk [(ref_a, rpt 20 2)] /\
+  enc_refs [(ref_a, rpt 20 2)] <> Some refs_duplicate.
+Proof.
+  intros Hua Hub Hra Hrb.
+  split; [apply bytes_okb_true; vm_compute; reflexivity|].
+  split; [apply bytes_okb_true; vm_compute; reflexivity|].
+  unfold ref_a, ref_b in Hua, Hub, Hra, Hrb.
+  split.
+  { cbv. rewrite Hub. cbv. rewrite Hrb. cbv. rewrite Hua. cbv. rewrite Hra. cbv. reflexivity. }
+  split; [vm_compute; discriminate|].
+  split.
+  { cbv. rewrite Hua. cbv. rewrite Hra. cbv. rewrite Hua. cbv. rewrite Hra. cbv. reflexivity. }
+  vm_compute; discriminate.
+Qed.
